@@ -10,7 +10,9 @@ Text is a list of code points. The model mirrors the code *as it is*, including:
 * `unescape` turns every two-character sequence backslash,`n` into a line feed, also where `escape` did not produce it;
 * the top-level comment is written at indentation 1, which `read` then rejects;
 * cells are written verbatim (TAB / LF / CR inside a name break the format);
-* names that are not valid UTF-8 (lone surrogates) make `write` fail, descriptors are written lossily (U+FFFD).
+* a name that is not valid UTF-8 (lone surrogate) makes `write` **panic**: `Display` of the name newtypes returns `fmt::Error`
+  and `std::io::Write::write_fmt` panics when the formatter fails although the stream did not (rustc 1.95); `write` has no
+  other failure (the sink is a `Vec`). Descriptors are written lossily (U+FFFD).
 -/
 
 namespace Tiny
@@ -195,7 +197,7 @@ def displayable (m : Mappings) : Bool :=
     c.fields.all (fun (_, f) => namesDisplayable f.names) &&
     c.methods.all (fun (_, me) => namesDisplayable me.names && me.params.all (fun (_, p) => namesDisplayable p.names))
 
-/-- `write_vec`: an error when a name cannot be displayed -/
+/-- `write_vec`: `none` stands for the panic when a name cannot be displayed (there is no `Err` outcome) -/
 def write? (m : Mappings) : Option (List Nat) := if displayable m then some (write m) else none
 
 /-! ## `read`
@@ -416,7 +418,7 @@ def keyStrLe (a b : JStr × Class) : Bool := strLe a.1 b.1
 def memberKeyLe (a b : MemberKey) : Bool := pairLe strLe strLe a b
 
 def paramsEqB (a b : AList Nat Param) : Bool :=
-  sortBy (fun x y => natLe x.1 y.1) a == sortBy (fun x y => natLe x.1 y.1) b
+  decide (sortBy (fun x y => natLe x.1 y.1) a = sortBy (fun x y => natLe x.1 y.1) b)
 
 def all2B {α β : Type} (r : α → β → Bool) : List α → List β → Bool
   | [], [] => true
@@ -428,7 +430,7 @@ def methodEqB (a b : Method) : Bool :=
 
 def classEqB (a b : Class) : Bool :=
   a.names == b.names && a.doc == b.doc &&
-    sortBy (fun x y => memberKeyLe x.1 y.1) a.fields == sortBy (fun x y => memberKeyLe x.1 y.1) b.fields &&
+    decide (sortBy (fun x y => memberKeyLe x.1 y.1) a.fields = sortBy (fun x y => memberKeyLe x.1 y.1) b.fields) &&
     all2B (fun x y => x.1 == y.1 && methodEqB x.2 y.2)
       (sortBy (fun x y => memberKeyLe x.1 y.1) a.methods) (sortBy (fun x y => memberKeyLe x.1 y.1) b.methods)
 
@@ -436,5 +438,120 @@ def contentEqB (a b : Mappings) : Bool :=
   a.ns == b.ns && a.doc == b.doc &&
     all2B (fun x y => x.1 == y.1 && classEqB x.2 y.2)
       (sortBy (fun x y => strLe x.1 y.1) a.classes) (sortBy (fun x y => strLe x.1 y.1) b.classes)
+
+
+/-! ### how the reader classifies lines; entry counts (used by the `read_counts` theorem and its oracle) -/
+
+/-- how `step` treats a line, given the kind of the member that was opened last -/
+inductive LineKind where
+  | cls | fld | mth | par | doc | skip
+  deriving Repr, DecidableEq
+
+def lineKind (k : Kind) (l : TLine) : LineKind :=
+  match l.indent with
+  | 0 => if l.first = C_ then .cls else .skip
+  | 1 => if l.first = F_ then .fld else if l.first = M_ then .mth else if l.first = C_ then .doc else .skip
+  | 2 =>
+    match k with
+    | .field => if l.first = C_ then .doc else .skip
+    | .method => if l.first = P_ then .par else if l.first = C_ then .doc else .skip
+  | _ => if l.first = C_ then .doc else .skip
+
+/-- the member kind after a line: only `f` and `m` lines at indentation 1 change it -/
+def kindAfter (k : Kind) (l : TLine) : Kind :=
+  if l.indent = 1 then (if l.first = F_ then .field else if l.first = M_ then .method else k) else k
+
+/-- the classification of every line of a body, from the text alone -/
+def lineKinds : Kind → List TLine → List LineKind
+  | _, [] => []
+  | k, l :: ls => lineKind k l :: lineKinds (kindAfter k l) ls
+
+def docN (d : Option JStr) : Nat := if d.isSome then 1 else 0
+
+/-- comments in a method entry -/
+def methodDocs (m : Method) : Nat := docN m.doc + (m.params.map fun e => docN e.2.doc).sum
+/-- comments in a class entry -/
+def classDocs (c : Class) : Nat :=
+  docN c.doc + (c.fields.map fun e => docN e.2.doc).sum + (c.methods.map fun e => methodDocs e.2).sum
+def classParams (c : Class) : Nat := (c.methods.map fun e => e.2.params.length).sum
+
+/-- number of entries of one kind in a class map (`.doc`: comments at all levels below the top) -/
+def countOf : LineKind → AList JStr Class → Nat
+  | .cls, cs => cs.length
+  | .fld, cs => (cs.map fun e => e.2.fields.length).sum
+  | .mth, cs => (cs.map fun e => e.2.methods.length).sum
+  | .par, cs => (cs.map fun e => classParams e.2).sum
+  | .doc, cs => (cs.map fun e => classDocs e.2).sum
+  | .skip, _ => 0
+
+/-- the class-map part of `wf` -/
+def wfCs (cs : AList JStr Class) : Bool :=
+  keysNodup cs && cs.all fun (k, c) => firstName c.names == some k && wfClass c
+
+
+/-! ### decidable shapes of two sibling lines with the same key (domain of the `read_dup` theorems and their oracle) -/
+
+def isLine (indent : Nat) (first : JStr) (l : TLine) : Bool := l.indent == indent && l.first == first
+
+/-- the lines strictly between positions `i` and `j` -/
+def between (ls : List TLine) (i j : Nat) : List TLine := (ls.drop (i + 1)).take (j - i - 1)
+
+/-- lines `i < j` are class lines with the same first cell -/
+def dupClassAt (ls : List TLine) (i j : Nat) : Bool :=
+  match ls[i]?, ls[j]? with
+  | some a, some b => decide (i < j) && isLine 0 C_ a && isLine 0 C_ b && a.fields.head? == b.fields.head?
+  | _, _ => false
+
+/-- lines `i < j` are field (method) lines of one class with the same descriptor and first name -/
+def dupMemberAt (first : JStr) (ls : List TLine) (i j : Nat) : Bool :=
+  match ls[i]?, ls[j]? with
+  | some a, some b =>
+    decide (i < j) && isLine 1 first a && isLine 1 first b && a.fields.take 2 == b.fields.take 2 &&
+      (between ls i j).all fun l => decide (1 ≤ l.indent)
+  | _, _ => false
+
+/-- lines `i < j` are parameter lines with the same index under the method line `m` -/
+def dupParamAt (ls : List TLine) (m i j : Nat) : Bool :=
+  match ls[m]?, ls[i]?, ls[j]? with
+  | some lm, some a, some b =>
+    decide (m < i) && decide (i < j) && isLine 1 M_ lm && isLine 2 P_ a && isLine 2 P_ b &&
+      (a.fields.head?.bind parseUsize == b.fields.head?.bind parseUsize) &&
+      ((between ls m i).all fun l => decide (2 ≤ l.indent)) && ((between ls i j).all fun l => decide (2 ≤ l.indent))
+  | _, _, _ => false
+
+def dupAt (ls : List TLine) (m i j : Nat) : Bool :=
+  dupClassAt ls i j || dupMemberAt F_ ls i j || dupMemberAt M_ ls i j || dupParamAt ls m i j
+
+
+/-! ### the wider domain of the fixed point: comments may contain backslash-`n` (they come back changed, but `write` of the
+changed set is the same text) -/
+
+/-- `docOk` without the backslash-`n` condition -/
+def docOkE : Option JStr → Bool
+  | none => true
+  | some d => (d.all fun c => c != 9 && !isSurrogate c) && d.getLast? != some 13
+
+def paramOkE (n : Nat) (p : Param) : Bool := decide (p.index < USIZE_LIMIT) && namesOk validUnq n p.names && docOkE p.doc
+def fieldOkE (n : Nat) (f : Field) : Bool := cellOk f.desc && namesOk validUnq n f.names && docOkE f.doc
+def methodOkE (n : Nat) (m : Method) : Bool :=
+  cellOk m.desc && namesOk validMethod n m.names && docOkE m.doc && m.params.all fun (_, p) => paramOkE n p
+def classOkE (n : Nat) (c : Class) : Bool :=
+  namesOk validClass n c.names && docOkE c.doc && (c.fields.all fun (_, f) => fieldOkE n f) &&
+    c.methods.all fun (_, m) => methodOkE n m
+
+/-- the proved domain of the fixed point `write (read (write m)) = write m` -/
+def writableE (n : Nat) (m : Mappings) : Bool :=
+  decide (2 ≤ n) && m.ns.length == n && (m.ns.all fun s => !s.isEmpty && cellOk s) && m.doc.isNone &&
+    wf m && m.classes.all fun (_, c) => classOkE n c
+
+/-- a comment after one trip through the file -/
+def reDoc (d : JStr) : JStr := unescape (escape d)
+def reDocParam (p : Param) : Param := { p with doc := p.doc.map reDoc }
+def reDocField (f : Field) : Field := { f with doc := f.doc.map reDoc }
+def reDocMethod (m : Method) : Method := { m with doc := m.doc.map reDoc, params := AList.mapVals reDocParam m.params }
+def reDocClass (c : Class) : Class :=
+  { c with doc := c.doc.map reDoc, fields := AList.mapVals reDocField c.fields, methods := AList.mapVals reDocMethod c.methods }
+/-- the set with every comment replaced by what `read` makes of its written form -/
+def reDocM (m : Mappings) : Mappings := { m with classes := AList.mapVals reDocClass m.classes }
 
 end Tiny
